@@ -64,6 +64,12 @@ fn scripts(quick: bool) -> Vec<(Vec<(usize, Step)>, usize)> {
     out.push((sequential(&[vec![send(&[("/t1", 1, false), ("/t1", 2, true), ("/t1", 3, false)])]]), 1));
     out.push((sequential(&[vec![send(&[("/t1", 1, true), ("/t2", 2, false), ("/t1", 3, true), ("/t2", 4, true), ("/t1", 5, false)])]]), 1));
     out.push((sequential(&[vec![send(&[("/t1", 1, false)]), send(&[("/t1", 2, true), ("/t1", 3, true)]), send(&[("/t2", 4, false), ("/t1", 5, true)])]]), 1));
+    // overwritable commands whose encodings differ in length (a replaced record is truncated and
+    // rewritten in place), followed by more commands to the same target
+    out.push((sequential(&[vec![send(&[("/t1", 1, true), ("/t1", 22222222, true), ("/t1", 3, false)])]]), 1));
+    out.push((sequential(&[vec![send(&[("/t1", 22222223, true), ("/t1", 4, true), ("/t1", 55555, true), ("/t1", 6, true), ("/t1", 7, false)])]]), 1));
+    out.push((sequential(&[vec![send(&[("/t1", 9, true), ("/t2", 1, false), ("/t1", 10, true), ("/t2", 22222224, true), ("/t1", 11, false), ("/t2", 3, true)])]]), 1));
+    out.push((sequential(&[vec![sendh(&[("x", 1, true), ("y", 2, true), ("x", 22222225, true), ("y", 33333, true), ("x", 3, false), ("y", 4, false)])]]), 1));
     // several lanes behind one remote host: interleaved targets buffered in one batch
     out.push((sequential(&[vec![sendh(&[("x", 41, false), ("y", 42, false), ("x", 43, false)])]]), 1));
     out.push((sequential(&[vec![sendh(&[("x", 44, false)]), sendh(&[("y", 45, false), ("x", 46, true), ("y", 47, false), ("x", 48, false)])]]), 1));
